@@ -38,10 +38,11 @@ CHECKS['C01'] = dict(
          'constraints the lowering passes rely on (pipeline_order_sound); (2) the break, continue and return canonicalisation passes '
          '(incl. ConditionalReturnRewriter) are modelled as executable Gallina (the actual guard-placement state machines) and proved '
          'semantics-preserving for all programs of a lowering language with opaque user atoms -- if / while / for / break / continue / '
-         'return / with / try-else-finally under an exception-free semantics -- all stores, all decision sequences '
+         'return / raise / with / try-except-else-finally (exceptions from raise statements, handler dispatch by decision, finally clauses '
+         'that complete normally) -- all stores, all decision sequences, runs that complete, return or end in an exception '
          '(break_lowering_correct, continue_lowering_correct, return_lowering_correct and their composition lowering_correct: mutual induction over a relational big-step '
          'semantics, linked to the fuelled interpreter); the models are tied to break_statements.py / continue_statements.py / '
-         'return_statements.py on every run by structural comparison of their outputs on the real passes\' inputs (~280 generated '
+         'return_statements.py on every run by structural comparison of their outputs on the real passes\' inputs (~330 generated '
          'programs). Proving the try/else case exposed a defect in the first repair of /repo, since corrected. '
          'The end-to-end claim (13 passes + loader) is validated, not proved: a differential oracle runs original vs '
          'malt.to_graph(original) on seeded generated programs x decision vectors x option sets (recursive on/off, feature sets) and '
